@@ -215,6 +215,13 @@ int main(int argc, char** argv) {
       ev_int("own", type_no(t) == CastAny ? 1 : type_no(t) == CastNone ? 2 : 0); ev_end();       /* what the object's type declares for Cast */
       continue;
     }
+    if (hc_is(0, "swaptypes")) {          /* swaptypes <t> <u> : a Type object is not a value that can be exchanged with another: refused, and every later
+                                             lookup on both still answers from what each type declares */
+      int t = (int)hc_int(1), u = (int)hc_int(2);
+      HC_TRY(swap(type_no(t), type_no(u)));
+      ev_begin("swaptypes"); ev_int("t", t); ev_int("u", u); ev_str("exc", hc_exc); ev_int("sizeoftype", (long long)size(Type)); ev_end();
+      continue;
+    }
     if (hc_is(0, "threads")) {
       int n = (int)hc_int(1), rounds = (int)hc_int(2), nt = hc_nw - 3;
       int* ts = malloc(sizeof(int) * (size_t)nt); for (int i = 0; i < nt; i++) ts[i] = (int)hc_int(3 + i);
